@@ -40,6 +40,10 @@ func init() {
 type globalTaint struct {
 	w      *World
 	params map[*ssa.Parameter]map[*ssa.Global]bool
+	// fields: struct fields (of any instance) into which a value aliasing a
+	// package variable's memory is stored somewhere in the package — a slice
+	// header copied from a package-level slice shares its backing array
+	fields map[string]map[*ssa.Global]bool
 }
 
 // derivedFrom returns the set of globals whose memory v may alias.
@@ -74,6 +78,7 @@ func (g *globalTaint) derivedFrom(v ssa.Value, seen map[ssa.Value]bool) map[*ssa
 		}
 	case *ssa.FieldAddr:
 		add(g.derivedFrom(x.X, seen))
+		add(g.fields[fieldID(x)])
 	case *ssa.IndexAddr:
 		add(g.derivedFrom(x.X, seen))
 	case *ssa.Field:
@@ -170,14 +175,32 @@ type globalWrite struct {
 
 // globalWrites: per global, the writes to it or to memory reachable from it.
 func (w *World) globalWrites() (map[*ssa.Global][]globalWrite, []string) {
-	gt := &globalTaint{w: w, params: map[*ssa.Parameter]map[*ssa.Global]bool{}}
+	gt := &globalTaint{w: w, params: map[*ssa.Parameter]map[*ssa.Global]bool{}, fields: map[string]map[*ssa.Global]bool{}}
 	var notes []string
-	// fixpoint on parameter taint
+	// fixpoint on parameter and field taint
 	for round := 0; round < 6; round++ {
 		changed := false
 		for _, fn := range w.allPkgFuncs() {
 			for _, b := range fn.Blocks {
 				for _, in := range b.Instrs {
+					if st, ok := in.(*ssa.Store); ok {
+						if fa, ok := st.Addr.(*ssa.FieldAddr); ok {
+							switch st.Val.Type().Underlying().(type) {
+							case *types.Pointer, *types.Slice, *types.Map, *types.Chan:
+								for k := range gt.derivedFrom(st.Val, map[ssa.Value]bool{}) {
+									id := fieldID(fa)
+									if gt.fields[id] == nil {
+										gt.fields[id] = map[*ssa.Global]bool{}
+									}
+									if !gt.fields[id][k] {
+										gt.fields[id][k] = true
+										changed = true
+									}
+								}
+							}
+						}
+						continue
+					}
 					c, ok := in.(ssa.CallInstruction)
 					if !ok {
 						continue
